@@ -265,6 +265,50 @@ def reach_lemma(out):
     out.add("transitions", res.generated)
 
 
+# C14 on NTPv5: the poll request carries a reference-id chunk request whose offset comes from the transfer state of
+# spec/Bloom.tla (n = 32). A real NtpSource is driven through whole transfers against conforming, lossy and
+# non-conforming (short chunk) servers; every request must be built (no panic, a datagram that fits the buffer).
+V5_REQUEST_CASES = [
+    dict(filters=["none"], switch_at=0, exchanges=70, drop_every=0, short_every=0, short_len=0),
+    dict(filters=["none"], switch_at=0, exchanges=70, drop_every=4, short_every=0, short_len=0),
+] + [dict(filters=["none"], switch_at=0, exchanges=110, drop_every=0, short_every=every, short_len=ln)
+     for ln in (1, 3, 4, 8, 12, 15) for every in (1000, 7)] + [
+    dict(filters=["half"], switch_at=0, exchanges=110, drop_every=5, short_every=3, short_len=8),
+    dict(filters=["none"], switch_at=0, exchanges=80, drop_every=0, short_every=1, short_len=0),
+]
+
+
+def v5_request_stage(out, prop, tier, seed):
+    wd = vf.workdir("Source_v5req")
+    rf = os.path.join(wd, "v5req_%s.ndjson" % prop)
+    cases = V5_REQUEST_CASES if tier == "quick" else V5_REQUEST_CASES * 4
+    vf.run_harness("ntp_proto", "packet::v5::server_reference_id::verif_hook::verif_bloom",
+                   {"mode": "source", "seed": seed, "cases": cases, "output": rf})
+    rows = vf.read_ndjson(rf)
+    if len(rows) != len(cases):
+        raise vf.ToolError("v5 request scenario returned %d rows for %d cases" % (len(rows), len(cases)))
+    built = short = 0
+    for r in rows:
+        case = r["case"]
+        name = "short%s/%s,drop%s" % (case["short_len"], case["short_every"], case["drop_every"])
+        if r.get("panic"):
+            out.violation("Source:v5-request[%s]:panic" % name,
+                          {"how": "v5-request", "case": case, "panic": r["panic"], "exchange": r.get("exchange")})
+            continue
+        if r.get("error"):
+            if r["error"] == "no request sent":
+                # a reset instead of a request is allowed by the statement; anything else cannot be judged
+                out.notes.append("v5 request scenario %s: no request at exchange %s" % (name, r.get("exchange")))
+                continue
+            raise vf.ToolError("v5 request scenario could not run: %s" % r["error"])
+        built += len(r["rows"])
+        short += sum(1 for x in r["rows"] if x.get("short"))
+    if (built == 0 or short == 0) and not out.violations:
+        raise vf.ToolError("vacuous v5 request scenario (built=%d short=%d)" % (built, short))
+    out.add("v5_poll_requests_built_along_bloom_transfers", built)
+    out.add("v5_short_chunk_answers_injected", short)
+
+
 def run(prop, tier, seed):
     out = vf.Outcome(prop, tier, seed, "model_checking")
     out.coverage["rule"] = ("every transition of the bounded Source model whose cone for this property is non-empty is covered by a "
@@ -278,6 +322,8 @@ def run(prop, tier, seed):
         s.trace_one(out, prop, tier, seed, cfg)
     if prop in ("C14", "C13"):
         size_domain(out, prop, tier, seed)
+    if prop == "C14":
+        v5_request_stage(out, prop, tier, seed)
     if prop == "C13":
         Stash().model_and_replay(out, prop, tier, seed, "main", max_len=40)
     if prop in ("C13", "C08"):
